@@ -832,6 +832,11 @@ class Parser:
         if self.current().type == TokenType.IDENTIFIER:
             section_name = self.current().value
             self.advance()
+        elif self.current().type == TokenType.NUMBER:
+            # "§1::" (no name) is read with the id as its name and therefore emitted as
+            # "§1::1"; that canonical text must be readable again.
+            section_name = _token_to_str(self.current())
+            self.advance()
         elif self.current().type in (TokenType.NEWLINE, TokenType.INDENT, TokenType.LIST_START):
             # No explicit name, use section_id as the name (e.g., §CONTEXT:: → name is "CONTEXT")
             section_name = section_id
